@@ -58,6 +58,161 @@ func modelString(model map[string]string, prefix string) (string, bool) {
 	return "", false
 }
 
+// ---------- template drivers ----------
+//
+// /verif/replay/drivers/*.tmpl: a Go test source with a header
+//   // func: client.errorIfDone
+//   // dir: internal/client
+//   // probe hasTrailer: rpc.Trailer != nil        (spec expression evaluated in the function's entry state)
+// Occurrences of {{name}} in the body are replaced by the Go literal of the probe's model value.
+
+type tmplDriver struct {
+	Func   string
+	Dir    string
+	Probes [][2]string
+	Body   string
+	File   string
+}
+
+var tmplDrivers = map[string]*tmplDriver{}
+
+func loadTemplateDrivers() {
+	files, _ := filepath.Glob(filepath.Join(verifDir, "replay", "drivers", "*.tmpl"))
+	for _, f := range files {
+		data, err := os.ReadFile(f)
+		if err != nil {
+			continue
+		}
+		d := &tmplDriver{File: f, Dir: "."}
+		var body []string
+		for _, l := range strings.Split(string(data), "\n") {
+			switch {
+			case strings.HasPrefix(l, "// func:"):
+				d.Func = strings.TrimSpace(strings.TrimPrefix(l, "// func:"))
+			case strings.HasPrefix(l, "// dir:"):
+				d.Dir = strings.TrimSpace(strings.TrimPrefix(l, "// dir:"))
+				body = append(body, l)
+			case strings.HasPrefix(l, "// probe "):
+				r := strings.TrimPrefix(l, "// probe ")
+				i := strings.Index(r, ":")
+				if i > 0 {
+					d.Probes = append(d.Probes, [2]string{strings.TrimSpace(r[:i]), strings.TrimSpace(r[i+1:])})
+				}
+			default:
+				body = append(body, l)
+			}
+		}
+		d.Body = strings.Join(body, "\n")
+		if d.Func != "" {
+			tmplDrivers[d.Func] = d
+		}
+	}
+}
+
+// probeTerms evaluates a driver's probes in the entry state of the function under verification.
+func (ex *Exec) probeTerms(st *State, fr *Frame, key string) {
+	d := tmplDrivers[key]
+	if d == nil {
+		return
+	}
+	m := map[string]Val{}
+	for _, p := range d.Probes {
+		e, err := parseSpecExpr(p[1])
+		if err != nil {
+			ex.specError("driver %s probe %s: %v", d.File, p[0], err)
+			continue
+		}
+		m[p[0]] = ex.evalSpec(st, fr, e, nil)
+	}
+	ex.probes[key] = m
+}
+
+func goLiteral(v Val, modelVal string) string {
+	modelVal = strings.TrimSpace(modelVal)
+	switch v.S {
+	case "Bool":
+		return modelVal
+	case "String":
+		if s, ok := smtStringValue(modelVal); ok {
+			return fmt.Sprintf("%q", s)
+		}
+		return "\"\""
+	}
+	// Int, possibly (- n)
+	if strings.HasPrefix(modelVal, "(-") {
+		return "-" + strings.TrimSpace(strings.Trim(modelVal[2:], " ()"))
+	}
+	return modelVal
+}
+
+// runTemplateDriver asks the solver for the probe values in the failing model and runs the test.
+func (ex *Exec) runTemplateDriver(ob *Obligation, repo, base string) (string, bool, string, map[string]string) {
+	d := tmplDrivers[ob.Func]
+	probes := ex.probes[ob.Func]
+	if d == nil || probes == nil {
+		return "", false, "", nil
+	}
+	var names, terms []string
+	for _, p := range d.Probes {
+		if v, ok := probes[p[0]]; ok && !v.isComposite() {
+			names = append(names, p[0])
+			terms = append(terms, v.T)
+		}
+	}
+	// rebuild the script so that constants used only by probe terms are declared
+	extra := ""
+	for _, t := range terms {
+		extra += "(assert (= " + t + " " + t + "))\n"
+	}
+	save := ob.PC
+	ob.PC = append(append([]string(nil), ob.PC...), )
+	script := ex.scriptWith(ob, true, extra)
+	ob.PC = save
+	script += "(get-value (" + strings.Join(terms, " ") + "))\n"
+	var out string
+	for _, w := range []string{"z3new", "z3", "cvc5"} {
+		n, a := solverCmd(w, 20*time.Second, 0)
+		r := runSolver(n, a, script, 20*time.Second, false)
+		if r.status == "sat" {
+			out = r.out
+			break
+		}
+	}
+	if out == "" {
+		return "solver did not return a model for the probes", false, "", nil
+	}
+	// parse ((term value) (term value) ...)
+	idx := strings.Index(out, "((")
+	if idx < 0 {
+		return "cannot parse get-value output: " + clip(out, 300), false, "", nil
+	}
+	pairs := splitFormsTop(splitForms(out[idx:])[0])
+	vals := map[string]string{}
+	body := d.Body
+	for i, pr := range pairs {
+		if i >= len(names) {
+			break
+		}
+		// pr = (term value): value is the last top-level item
+		inner := strings.TrimSpace(pr[1 : len(pr)-1])
+		t := terms[i]
+		val := strings.TrimSpace(strings.TrimPrefix(inner, t))
+		if !strings.HasPrefix(inner, t) {
+			// fall back: take the last token / form
+			fs := splitSorts(inner)
+			val = fs[len(fs)-1]
+		}
+		lit := goLiteral(probes[names[i]], val)
+		vals[names[i]] = lit
+		body = strings.ReplaceAll(body, "{{"+names[i]+"}}", lit)
+	}
+	body = strings.ReplaceAll(body, "{{obligation}}", ob.Name)
+	tf := base + "_replay_test.go.txt"
+	os.WriteFile(tf, []byte(body), 0o644)
+	o, rep := runOverlayTest(repo, tf)
+	return o, rep, tf, vals
+}
+
 func init() {
 	replayDrivers["goat.parseGrpcTimeout"] = func(ex *Exec, ob *Obligation, model map[string]string, repo, base string) (string, bool, string) {
 		in, ok := modelString(model, "p.timeout_")
